@@ -35,13 +35,14 @@ func init() {
 }
 
 type cnDriver struct {
-	net     *cnNet
-	reps    []*cnReplica // reps[0] is the observer (probes, plain replay path); reps[1+i] runs with validator i's identity
-	valset  map[int]int64
-	height  int64
-	rng     *rand.Rand
-	w       *bufio.Writer
-	nEvents int
+	lastMetaTx []byte // the block metadata transaction of the previous block
+	net        *cnNet
+	reps       []*cnReplica // reps[0] is the observer (probes, plain replay path); reps[1+i] runs with validator i's identity
+	valset     map[int]int64
+	height     int64
+	rng        *rand.Rand
+	w          *bufio.Writer
+	nEvents    int
 	// bookkeeping for the scenario generator
 	lastProj    map[string]any
 	lastReg     map[string]any
@@ -488,7 +489,9 @@ func (d *cnDriver) step() error {
 			rts := d.nodeRts[v.name]
 			validity := "ok"
 			switch x := d.rng.Intn(12); {
-			case x < 6 && len(d.rtOwner) > 0 && rts == "":
+			case x < 6 && len(d.rtOwner) > 0 && rts == "" && i != 1:
+				// (node 1 stays a plain validator: a compute worker can be frozen for missing liveness, and the documented
+				//  precondition of C10 is that one validator stays eligible throughout)
 				// join registered runtimes as a compute worker (sorted: map order must not leak into the seeded scenario)
 				var names []string
 				for r := range d.rtOwner {
@@ -656,6 +659,12 @@ func (d *cnDriver) step() error {
 			if (pe > 100 || pb > 100) && validity == "ok" {
 				sp.Validity = "badpct"
 			}
+		}
+		if d.rng.Intn(2) == 0 {
+			// liveness of the committee is evaluated when the epoch ends: a worker that committed in too few rounds is suspended
+			// for the runtime and, after the tolerated number of failures, slashed and frozen - before the next election reads
+			// the candidates
+			sp.Live = fmt.Sprintf("%d:%d:%d:%d", 1+d.rng.Intn(2), []int{50, 100}[d.rng.Intn(2)], 1+d.rng.Intn(2), 1+d.rng.Intn(5))
 		}
 		if exists && e == owner && validity == "ok" && d.rng.Intn(2) == 0 && n.cfg.Validators > 1 {
 			// the owner hands the runtime over to another entity (which may then try to deregister)
@@ -1184,7 +1193,17 @@ func (d *cnDriver) step() error {
 			// a proposal of a failed round for the same height: same transactions minus the last user transaction, other hash
 			ob := *b
 			ob.Txs = nil
-			if len(b.Txs) >= 2 && d.rng.Intn(2) == 0 {
+			if len(b.Txs) >= 2 && len(d.lastMetaTx) > 0 && d.rng.Intn(3) == 0 {
+				// ... or the decided proposal's user transactions followed by the block metadata transaction of the PREVIOUS block
+				// (authentic, but not this proposer's and not for this height): execution is aborted at that transaction, after
+				// the user transactions - fee payments included - were delivered and before any EndBlock ran; nothing of it may
+				// survive into the execution of the decided block
+				ob.Txs = append(append([][]byte{}, b.Txs[:len(b.Txs)-1]...), d.lastMetaTx)
+				ob.Hash = blockHash(h, 11, ob.Txs)
+				if _, perr3 := r.process(&ob, d.valset); perr3 != nil {
+					d.panics = append(d.panics, fmt.Sprintf("h=%d ProcessProposal(foreign metadata): %s", h, perr3))
+				}
+			} else if len(b.Txs) >= 2 && d.rng.Intn(2) == 0 {
 				// ... or the decided proposal with one user transaction left out (or two exchanged) and the proposer's block
 				// metadata transaction kept: well-formed and signed, but its state root no longer matches - the replica
 				// executes it, rejects it at the metadata check, and must keep nothing of it
@@ -1231,6 +1250,9 @@ func (d *cnDriver) step() error {
 	}
 	d.otherTxs = results[1:]
 	results[0] = d.observe(b, metas)
+	if len(b.Txs) > 0 {
+		d.lastMetaTx = append([]byte{}, b.Txs[len(b.Txs)-1]...)
+	}
 	if d.blockLog != nil {
 		d.blockLog[h] = &cnLogged{b: *b, valset: vcopy, app: results[0].AppHash}
 		delete(d.blockLog, h-80)
@@ -1296,7 +1318,7 @@ func (d *cnDriver) observe(b *cnBlock, metas []cnTxMeta) cnBlockResult {
 			votes = append(votes, map[string]any{"val": fmt.Sprintf("N%d", v.Val), "signed": v.Signed})
 		}
 		d.emit(map[string]any{"ev": "block", "h": b.Height, "proposer": fmt.Sprintf("N%d", b.Proposer), "votes": votes, "evidence": b.Evidence, "ntx": len(b.Txs)})
-		r.beginBlock(b, ci, n.misbehavior(b, d.valset))
+		bevs := r.beginBlock(b, ci, n.misbehavior(b, d.valset))
 		st, done := r.liveState()
 		prev := rawSnapshot(st)
 		proj, err := n.ledgerProjection(st)
@@ -1307,7 +1329,7 @@ func (d *cnDriver) observe(b *cnBlock, metas []cnTxMeta) cnBlockResult {
 		rtNames := d.runtimeNames()
 		d.emit(map[string]any{"ev": "rhb", "h": b.Height, "rts": n.rhViews(bgCtx, st2(r), rtNames)})
 		ep, _, _ := beaconState.NewImmutableState(st2(r)).GetEpoch(bgCtx)
-		d.emit(map[string]any{"ev": "begin", "h": b.Height, "epoch": int64(ep), "slashed": len(b.Evidence) > 0, "state": proj})
+		d.emit(map[string]any{"ev": "begin", "h": b.Height, "epoch": int64(ep), "slashed": len(b.Evidence) > 0 || tookEscrow(bevs), "state": proj})
 		for i, tx := range b.Txs {
 			env := d.decodeEnvelope(tx)
 			resp := r.deliver(tx)
